@@ -414,6 +414,15 @@ def _rest(rep, M, CM, file):
             v = ws.get(flags[0])
             good = v is not None and v[0] == "cmp" and v[1] == "Lt" and "total_seconds" in str(v[2]) and LASTSV in {strip_epoch(x) if x and x[0] == "f0" else x for x in _flatten(v[2])} \
                 and v[3][0] == "f0" and "threshold" in v[3][2]
+            if good:
+                # the compared quantity is the elapsed time itself: (now - last).total_seconds(), not a rounded / truncated / shifted version of it
+                lhs = _nl(strip_epoch(v[2]))
+                exact = lhs[0] == "call" and str(lhs[1]).endswith(".total_seconds") and len(lhs[2]) == 1 and lhs[2][0][0] == "op" and lhs[2][0][1] == "Sub" and \
+                    strip_epoch(lhs[2][0][3]) == LASTSV and lhs[2][0][2][0] == "call" and "now" in str(lhs[2][0][2][1])
+                if not exact:
+                    okb = False
+                    rep.violation("R4", f"{MOD}.ConnectionManager.{ub.name}", "breaker-flag", "the breaker compares a transformed elapsed time (rounded / truncated / offset) with the threshold: losses whose distance is "
+                                  "just below the threshold do not arm the breaker", file, ub.node.lineno, witness=show_sv(v[2])[:120])
             if not good:
                 okb = False
                 rep.violation("R4", f"{MOD}.ConnectionManager.{ub.name}", "breaker-flag", "the breaker flag is not recomputed as `now - last loss < threshold` on a repeated loss", file, ub.node.lineno,
